@@ -171,15 +171,16 @@ func buildScenario(sc scen) (*netsim.Scenario, map[string]string, map[string][]s
 	return ns, ref, refSent, nil
 }
 
-func checker(sc scen, ref map[string]string, refSent map[string][]string) netsim.Checker {
+func checker(sc scen, keys []string, ref map[string]string, refSent map[string][]string) netsim.Checker {
 	return netsim.Checker{
-		State: func(w *netsim.World, hist []string) []netsim.Violation {
+		State: func(w netsim.W, hist []string) []netsim.Violation {
 			var vs []netsim.Violation
-			for k, p := range w.Actors {
+			for _, k := range keys {
+				p := w.Info(k)
 				if p.Panic != "" {
 					vs = append(vs, netsim.Violation{Sig: "panic|" + p.PanicFrame, Detail: fmt.Sprintf("party %s panicked: %s in %s", k, p.Panic, p.PanicFrame)})
 				}
-				if p.Hung != "" {
+				if p.Hung {
 					vs = append(vs, netsim.Violation{Sig: "hang", Detail: fmt.Sprintf("party %s: a handler call did not return", k)})
 				}
 			}
@@ -197,7 +198,7 @@ func checker(sc scen, ref map[string]string, refSent map[string][]string) netsim
 			}
 			return vs
 		},
-		Sink: func(w *netsim.World, hist []string) []netsim.Violation {
+		Sink: func(w netsim.W, hist []string) []netsim.Violation {
 			var vs []netsim.Violation
 			st := w.Status()
 			for k, s := range st {
@@ -207,7 +208,8 @@ func checker(sc scen, ref map[string]string, refSent map[string][]string) netsim
 					vs = append(vs, netsim.Violation{Sig: "result-differs-from-in-order-run", Detail: fmt.Sprintf("party %s: %s, in-order run: %s", k, s, ref[k])})
 				}
 			}
-			for k, p := range w.Actors {
+			for _, k := range keys {
+				p := w.Info(k)
 				var sent []string
 				for _, m := range p.Sent {
 					sent = append(sent, drv.MsgID(m))
@@ -227,34 +229,35 @@ func scenarios() []scen {
 	add := func(proto string, n, dup, inj int, mode string) {
 		l = append(l, scen{Name: fmt.Sprintf("%s/n%d/dup%d/inj%d/%s", proto, n, dup, inj, mode), Proto: proto, N: n, Dup: dup, Inject: inj, Mode: mode})
 	}
-	add("vproto:XB", 3, 0, 0, "full")
-	add("vproto:X", 3, 1, 0, "full")
-	add("vproto:AP", 3, 1, 1, "full")
-	add("vproto:PX", 3, 0, 0, "full")
+	add("vproto:XB", 3, 1, 1, "full")
+	add("vproto:BXP", 3, 1, 0, "full")
+	add("vproto:XAB", 3, 0, 1, "full")
+	add("vproto:AP", 3, 2, 1, "full")
+	add("vproto:PX", 3, 1, 0, "full")
+	add("vproto:BA", 4, 0, 0, "full")
 	add("xor", 3, 2, 1, "full")
+	add("xor", 4, 1, 1, "full")
 	add("vproto2:3", 2, 2, 1, "full")
-	add("vproto2:4", 2, 1, 1, "full")
+	add("vproto2:4", 2, 2, 1, "full")
 	add("doerner-keygen", 2, 1, 1, "full")
 	add("doerner-sign", 2, 1, 1, "full")
+	add("frost-keygen", 3, 0, 0, "full")
+	add("frost-sign", 3, 1, 1, "full")
+	add("frost-sign-taproot", 3, 1, 0, "full")
 	add("frost-keygen", 3, 0, 0, "dev1")
 	add("frost-sign", 3, 0, 0, "dev2")
-	add("frost-sign-taproot", 3, 0, 0, "dev1")
 	if vkit.Thorough() {
-		add("vproto:XB", 3, 1, 0, "full")
-		add("vproto:BXP", 3, 0, 0, "full")
-		add("vproto:BXP", 3, 1, 0, "full")
-		add("vproto:XB", 3, 0, 1, "full")
-		add("vproto:XAB", 3, 0, 0, "full")
+		add("vproto:BXPB", 3, 1, 1, "full")
 		add("vproto:XB", 4, 0, 0, "full")
-		add("vproto:B", 4, 1, 0, "full")
-		add("vproto:X", 3, 1, 1, "full")
-		add("xor", 4, 1, 1, "full")
-		add("frost-sign", 3, 1, 1, "full")
-		add("frost-keygen", 3, 0, 0, "full")
+		add("vproto:BX", 5, 0, 0, "full")
+		add("frost-keygen", 3, 1, 1, "full")
+		add("frost-keygen-taproot", 3, 1, 0, "full")
+		add("frost-keygen", 4, 0, 0, "full")
+		add("frost-sign", 4, 1, 0, "full")
 		add("frost-keygen", 3, 0, 0, "dev2")
-		add("frost-keygen-taproot", 3, 0, 0, "dev2")
-		add("frost-sign", 4, 0, 0, "dev2")
+		add("cmp-sign", 2, 0, 0, "full")
 		add("cmp-sign", 2, 0, 0, "dev1")
+		add("cmp-sign", 3, 0, 0, "dev1")
 	}
 	return l
 }
@@ -277,7 +280,7 @@ func main() {
 		w, err := ns.Replay(rp.History)
 		fmt.Println("history:", strings.Join(rp.History, "\n         "))
 		fmt.Println("replay error:", err)
-		ck := checker(rp.Scen, ref, refSent)
+		ck := checker(rp.Scen, ns.ActorKeys(), ref, refSent)
 		vs := ck.State(w, rp.History)
 		if len(w.Pending) == 0 {
 			vs = append(vs, ck.Sink(w, rp.History)...)
@@ -305,7 +308,7 @@ func main() {
 			res.Violate("in-order-run-fails|"+sc.Proto, err.Error(), map[string]interface{}{"scen": sc, "history": []string{}})
 			continue
 		}
-		ck := checker(sc, ref, refSent)
+		ck := checker(sc, ns.ActorKeys(), ref, refSent)
 		var st *netsim.Stats
 		deadline := vkit.Deadline(90*time.Second, 25*time.Minute)
 		bound := "all schedules"
